@@ -119,6 +119,13 @@ def run(ctx):
             x = min(max(x, lo_x), hi_x)
             want = hyper_exact(x, N, n, G)[alt]; r = guarded(utils.hypergeometric, x, N, n, G, alt)
             det = {"call": "hypergeometric", "x": x, "N": N, "n": n, "G": G, "alternative": alt}; site = "hypergeometric"
+        elif u_ < 0.78:
+            # null probabilities far below machine epsilon (rare events) or next to 1: 1 - p must not be formed in doubles
+            n = ctx.rng.choice([3, 10, 40, 200]); tiny = ctx.rng.choice([Fr(1, 10**10), Fr(1, 10**20), Fr(1, 2**60), Fr(1, 10**100), Fr(1, 10**6)])
+            p = Fr(float(tiny)) if ctx.rng.random() < 0.7 else Fr(float(1 - float(ctx.rng.choice([Fr(1, 10**10), Fr(1, 2**40), Fr(1, 10**6)]))))
+            x = ctx.rng.choice([1, 1, 2, 0, n, n - 1, 3]); x = min(max(x, 0), n)
+            want = binom_exact(x, n, p)[alt]; r = guarded(utils.binomial_p, x, n, float(p), alt)
+            det = {"call": "binomial_p", "x": x, "n": n, "p": float(p), "alternative": alt}; site = "binomial_p"; ctx.count("null-probability-next-to-0-or-1")
         else:
             n = ctx.rng.choice([50, 100, 200, 400]); p = ctx.rng.choice([Fr(1, 2), Fr(1, 4), Fr(1, 16), Fr(15, 16), Fr(3, 8)])
             x = ctx.rng.choice([0, 1, 3, n, n - 1, n - 3, ctx.rng.randint(0, n)])
